@@ -201,6 +201,7 @@ func Check[C any](t *testing.T, p Prop[C]) {
 		mode = "gen"
 	}
 	known := loadKnown()
+	startWedgeWatchdog()
 	base := p.ID + "." + p.Name
 	st := &Stats{Property: p.ID, Check: p.Name, Mode: mode, Labels: map[string]int{}, KnownHits: map[string]int{},
 		Rule: p.Rule, Assumptions: p.Assumptions, Samples: []any{}}
@@ -277,7 +278,9 @@ func Check[C any](t *testing.T, p Prop[C]) {
 				jb, _ := json.Marshal(SavedCase{Property: p.ID, Check: p.Name, Case: sc.Case, Note: "journal (replay of " + f + ")"})
 				_ = os.WriteFile(filepath.Join(out, base+".journal.json"), jb, 0o644)
 			}
+			caseBegin()
 			v := SafeRun(p.Run, c)
+			caseEnd()
 			record(sc.Case, v)
 			ro := ReplayOutcome{File: f, Status: "pass", Msg: v.Msg, Key: v.Key}
 			if v.Status == StatusViolation {
@@ -309,7 +312,9 @@ func Check[C any](t *testing.T, p Prop[C]) {
 			jb, _ := json.Marshal(SavedCase{Property: p.ID, Check: p.Name, Case: js, Note: "journal"})
 			_ = os.WriteFile(filepath.Join(out, base+".journal.json"), jb, 0o644)
 		}
+		caseBegin()
 		v := SafeRun(p.Run, c)
+		caseEnd()
 		if v.Status == StatusViolation && v.Key != "" {
 			if _, ok := known[p.ID+":"+v.Key]; ok {
 				// A listed, unrepaired finding: counted, not reported again,
